@@ -12,6 +12,7 @@ implementation's own payment dumps.
 import LndModel.Prelude.Lines
 import LndModel.C16.Model
 import LndModel.C16.Light
+import LndModel.C16.Life
 
 open LndModel LndModel.Lines LndModel.C16
 
@@ -67,13 +68,19 @@ def shapeStr (s : Shape) : String :=
 def attemptStr (a : Attempt) : String :=
   s!"{a.id}:{a.amt}:{stChar a.st}:{shapeStr a.shape}"
 
+/-- `(bool, error)` of AllowMoreAttempts / NeedWaitAttempts. -/
+def decStr : Dec → String
+  | .yes => "t" | .no => "f" | .internal => "E"
+
 /-- canonical dump, same format as `c16.dump` of the harness. -/
 def dumpStr (p : Payment) : String :=
   let hs := sortById p.attempts
   let hstr := if hs.isEmpty then "-" else ",".intercalate (hs.map attemptStr)
   let reason := match p.reason with | some r => toString r | none => "-"
+  let ti := match p.terminalInfo with | .settled => "S" | .reason r => s!"R{r}" | .nothing => "-"
   s!"value={p.value} st={statusNum p.status} rem={p.remaining} nif={p.numInFlight} fees={p.feesPaid} " ++
-  s!"hs={b01 p.hasSettledHTLC} pf={b01 p.paymentFailed} reason={reason} htlcs={hstr}"
+  s!"hs={b01 p.hasSettledHTLC} pf={b01 p.paymentFailed} reason={reason} " ++
+  s!"allow={decStr p.allowMore} wait={decStr p.needWait} term={b01 p.terminated} ti={ti} htlcs={hstr}"
 
 def resStr (r : Res) : String :=
   match r with
@@ -113,6 +120,8 @@ structure Dump where
   pf : Nat
   reason : Option Nat
   htlcs : List DH
+  /-- `TerminalInfo()` as the implementation answered it: S / R<reason> / - / X. -/
+  ti : String := "?"
   deriving Repr
 
 def parseDH (s : String) : Option DH :=
@@ -135,7 +144,7 @@ def parseDump (ws : List String) : Option Dump := do
   let reason := reasonS.toNat?
   let hsS ← kv? ws "htlcs"
   let htlcs ← if hsS == "-" then some [] else (hsS.splitOn ",").mapM parseDH
-  return ⟨value, st, rem, nif, fees, hs, pf, reason, htlcs⟩
+  return ⟨value, st, rem, nif, fees, hs, pf, reason, htlcs, (kv? ws "ti").getD "?"⟩
 
 /-! ### monitor state -/
 
@@ -299,6 +308,12 @@ def checkDump (s : St) (h : Nat) (d : Dump) (hist : Bool := true) : IO St := do
   if d.rem + sent != d.value || d.nif != (d.htlcs.filter (·.st == "I")).length
       || d.hs != b01 setl || d.pf != b01 (!setl && d.reason.isSome) then
     s ← monitor s "state-fields" s!"h={h} rem={d.rem} nif={d.nif} hs={d.hs} pf={d.pf} inconsistent with attempts (sent={sent}, value={d.value})"
+  -- what the router reports to the caller when the lifecycle ends (`TerminalInfo`): a settled
+  -- attempt whenever there is one, the failure reason only without one
+  if d.ti != "?" then
+    let wantTi := if setl then "S" else match d.reason with | some r => s!"R{r}" | none => "-"
+    if d.ti != wantTi then
+      s ← monitor s "terminal-info" s!"h={h} TerminalInfo()={d.ti} but the attempts / failure reason say {wantTi} (S = a settled attempt, R<n> = failure reason n)"
   if !hist then return s
   -- history clauses
   match lget s.lastSt h with
@@ -866,7 +881,261 @@ def stepXS (x : XS) (line : String) : IO XS := do
       x := { x with fails := x.fails + 1 }
     return x
 
+/-! ### lifecycle stream (`life`): the real `resumePayment` over the real control tower / KVStore -/
+
+def swName : SwKind → String
+  | .ok => "ok" | .idNotFound => "idnotfound" | .unreadable => "unreadable"
+  | .generic => "generic" | .link => "link"
+
+def swOf (s : String) : Option SwKind :=
+  match s with
+  | "ok" | "settle" => some .ok
+  | "idnotfound" => some .idNotFound
+  | "unreadable" => some .unreadable
+  | "generic" => some .generic
+  | "link" => some .link
+  | _ => none
+
+def opLine : Op → String
+  | .init h v => s!"init h={h} value={v}"
+  | .reg h a => s!"reg h={h} id={a.id} amt={a.amt} kind=m addr={(a.shape.mpp.getD (0, 0)).1} total={(a.shape.mpp.getD (0, 0)).2} fee={a.fee}"
+  | .settle h id => s!"settle h={h} id={id}"
+  | .failAtt h id => s!"failatt h={h} id={id}"
+  | .fail h r => s!"fail h={h} reason={r}"
+  | .del h => s!"del h={h}"
+  | .delFailed h => s!"delfailed h={h}"
+  | .fetch h => s!"fetch h={h}"
+  | .delAll _ _ => "delall"
+
+/-- the lines a model run predicts (same text as the harness prints). -/
+def renderEvs (b : Backend) : List Ev → List String
+  | [] => []
+  | .ask (.crash false n) _ :: .call _ op _ :: rest =>
+    s!"O crash after=0 n={n}" :: s!"X {opLine op} => crash" :: renderEvs b rest
+  | .ask (.crash true n) _ :: .call pre op _ :: rest =>
+    s!"O crash after=1 n={n}" :: s!"{opLine op} => {resStr (LndModel.C16.step b pre op).2}" :: renderEvs b rest
+  | .call _ op (some r) :: rest => s!"{opLine op} => {resStr r}" :: renderEvs b rest
+  | .call _ op none :: rest => s!"X {opLine op} => crash" :: renderEvs b rest
+  | .ask o args :: rest =>
+    let a := fun (i : Nat) => args.getD i 0
+    let routeArgs := s!"max={a 0} budget={a 1} nif={a 2}"
+    (match o with
+     | .ctx r n => s!"O ctx reason={r} n={n}"
+     | .crash af n => s!"O crash after={b01 af} n={n}"
+     | .route amt fee => s!"O route {routeArgs} => amt={amt} fee={fee}"
+     | .noRoute r => s!"O route {routeArgs} => noroute reason={r}"
+     | .crit => s!"O route {routeArgs} => crit"
+     | .nextId id => s!"O nextid => {id}"
+     | .send k => s!"O send id={a 0} => {swName k}"
+     | .mc v => s!"O mc id={a 0} => " ++ (match v with | none => "err" | some none => "-" | some (some r) => toString r)
+     | .result id k => s!"O result id={id} => " ++ (if k == .ok then "settle" else swName k))
+    :: renderEvs b rest
+
+def parseOracle (ws : List String) : Option OEv :=
+  let ans := answer ws
+  match ws with
+  | "O" :: "ctx" :: _ => do
+    let r ← kvNat? ws "reason"
+    let n ← kvNat? ws "n"
+    some (OEv.ctx r n)
+  | "O" :: "crash" :: _ => do
+    let af ← kvNat? ws "after"
+    let n ← kvNat? ws "n"
+    some (OEv.crash (af == 1) n)
+  | "O" :: "route" :: _ =>
+    match ans with
+    | ["crit"] => some .crit
+    | "noroute" :: _ => (kvNat? ans "reason").map OEv.noRoute
+    | _ => do
+      let amt ← kvNat? ans "amt"
+      let fee ← kvNat? ans "fee"
+      some (.route amt fee)
+  | "O" :: "nextid" :: _ => (ans.head?.bind (·.toNat?)).map OEv.nextId
+  | "O" :: "send" :: _ => (ans.head?.bind swOf).map OEv.send
+  | "O" :: "mc" :: _ =>
+    match ans with
+    | ["err"] => some (.mc none)
+    | ["-"] => some (.mc (some none))
+    | [r] => r.toNat?.map (fun r => OEv.mc (some (some r)))
+    | _ => none
+  | "O" :: "result" :: _ => do
+    let id ← kvNat? ws "id"
+    let k ← ans.head?.bind swOf
+    some (.result id k)
+  | _ => none
+
+def outcomeStr : Outcome → String
+  | .preimage => "preimage"
+  | .reason r => s!"reason={r}"
+  | .nilDeref => "panic"
+  | .err .crash => "err=crash"
+  | .err .internal => "err=internal"
+  | .err .crit => "err=crit"
+  | .err .desync => "err=desync"
+  | .err (.db e) => s!"err={errName e}"
+
+structure LifeSt where
+  st : St := { backend := .kv }
+  value : Nat := 0
+  addr : Nat := 0
+  inRun : Bool := false
+  feeLimit : Nat := 0
+  keep : Bool := false
+  resumed : Bool := false
+  snap : Store := Store.empty
+  pend : Pending := none
+  runLines : List String := []     -- reversed
+  oracles : List OEv := []         -- reversed
+  runs : Nat := 0
+  caseRuns : Nat := 0
+  resumedRuns : Nat := 0
+  resends : Nat := 0
+  oracleLines : Nat := 0
+  crashes : Nat := 0
+  ctxCancels : Nat := 0
+  results : Nat := 0
+  outPreimage : Nat := 0
+  outReason : Nat := 0
+  outErr : Nat := 0
+  outCrash : Nat := 0
+  launched : Nat := 0
+  lifeFails : Nat := 0
+  waitedOnPending : Nat := 0
+
+def lifeMismatch (x : LifeSt) (detail : String) : IO LifeSt := do
+  IO.println s!"MISMATCH case={x.st.caseId} line={x.st.lines} {detail}"
+  return { x with lifeFails := x.lifeFails + 1 }
+
+def lifeMonitor (x : LifeSt) (clause detail : String) : IO LifeSt := do
+  IO.println s!"MONITOR case={x.st.caseId} clause={clause} line={x.st.lines} {detail}"
+  return { x with lifeFails := x.lifeFails + 1 }
+
+def stepLife (x : LifeSt) (line : String) : IO LifeSt := do
+  let ws := words line
+  match ws with
+  | "CASE" :: _ :: rest =>
+    let st ← step x.st line
+    return { x with st := st, value := (kvNat? rest "value").getD 0, addr := (kvNat? rest "addr").getD 0,
+                    inRun := false, pend := none, runLines := [], oracles := [], caseRuns := 0 }
+  | "RUN" :: rest =>
+    let resumed := (kv? rest "mode") == some "resumed"
+    return { x with st := { x.st with lines := x.st.lines + 1 }, inRun := true, snap := x.st.store,
+                    feeLimit := (kvNat? rest "feelimit").getD 0, keep := (kvNat? rest "keep") == some 1,
+                    resumed := resumed, runLines := [], oracles := [], runs := x.runs + 1, caseRuns := x.caseRuns + 1,
+                    resumedRuns := x.resumedRuns + (if resumed then 1 else 0) }
+  | "O" :: kind :: _ =>
+    let mut x := { x with st := { x.st with lines := x.st.lines + 1 }, oracleLines := x.oracleLines + 1,
+                          runLines := line :: x.runLines }
+    match parseOracle ws with
+    | some o => x := { x with oracles := o :: x.oracles }
+    | none => x ← lifeMismatch x s!"unparsed oracle line: {line.take 100}"
+    if kind == "crash" then x := { x with crashes := x.crashes + 1 }
+    if kind == "ctx" then x := { x with ctxCancels := x.ctxCancels + 1 }
+    if kind == "result" then x := { x with results := x.results + 1 }
+    if kind == "send" then
+      -- an HTLC is handed to the switch: it must be an attempt the store admitted (and still
+      -- records as in flight), by the monitor's own ledger
+      let id := (kvNat? ws "id").getD 0
+      x := { x with launched := x.launched + 1 }
+      let okReg := match mget x.st.mon 0 with
+        | some m => m.ledger.any (fun e => e.id == id && e.st == "I")
+        | none => false
+      if !okReg then
+        x ← lifeMonitor x "life-send-unregistered" s!"attempt {id} is handed to the switch although the store has not admitted it (admitted history {(mget x.st.mon 0).map (fun m => ledgerKey m.ledger)})"
+    return x
+  | "X" :: _ =>
+    return { x with st := { x.st with lines := x.st.lines + 1 }, runLines := line :: x.runLines }
+  | "ENDRUN" :: _ =>
+    let mut x := { x with st := { x.st with lines := x.st.lines + 1 }, inRun := false }
+    let implOut := " ".intercalate (answer ws)
+    let cfg : LifeCfg := { backend := .kv, h := 0, feeLimit := x.feeLimit,
+                           shape := ⟨false, 0, some (x.addr, x.value)⟩, keep := x.keep }
+    let actual := x.runLines.reverse
+    let r := lifeRun cfg (actual.length + 4) x.snap x.oracles.reverse x.pend
+    let predicted := renderEvs .kv r.evs
+    -- line-by-line comparison of the whole run
+    let rec firstDiff (i : Nat) : List String → List String → Option (Nat × String × String)
+      | [], [] => none
+      | a :: as, b :: bs => if a == b then firstDiff (i + 1) as bs else some (i, a, b)
+      | a :: _, [] => some (i, a, "<nothing>")
+      | [], b :: _ => some (i, "<nothing>", b)
+    match firstDiff 0 predicted actual with
+    | some (i, m, a) =>
+      x ← lifeMismatch x s!"run {x.runs} event {i}: model=[{m.take 160}] impl=[{a.take 160}]"
+    | none =>
+      if outcomeStr r.out != implOut then
+        x ← lifeMismatch x s!"run {x.runs} resumePayment returned [{implOut}], model [{outcomeStr r.out}]"
+      if !r.os.isEmpty then
+        x ← lifeMismatch x s!"run {x.runs}: {r.os.length} oracle answers not consumed by the model"
+    if x.pend.isSome then x := { x with waitedOnPending := x.waitedOnPending + 1 }
+    x := { x with pend := r.pend }
+    -- what the caller is told, against the monitor's own ledger of the implementation's answers
+    let mp := mget x.st.mon 0
+    let settled := match mp with | some m => m.ledger.any (·.st == "S") | none => false
+    match answer ws with
+    | ["preimage"] =>
+      x := { x with outPreimage := x.outPreimage + 1 }
+      if !settled then
+        x ← lifeMonitor x "life-outcome" s!"resumePayment reports success (preimage) but no attempt of the payment has settled"
+    | [o] =>
+      if o.startsWith "reason=" then
+        x := { x with outReason := x.outReason + 1 }
+        if settled then
+          x ← lifeMonitor x "life-outcome" s!"resumePayment reports the payment failed ({o}) although an attempt has settled"
+        let want := match mp with | some m => m.reason | none => none
+        if (o.drop 7).toNat? != want || want.isNone then
+          x ← lifeMonitor x "life-outcome" s!"resumePayment reports {o} but the recorded failure reason is {want}"
+      else if o == "err=crash" then x := { x with outCrash := x.outCrash + 1 }
+      else if o == "panic" then
+        x ← lifeMonitor x "panic" s!"resumePayment panicked"
+      else if o == "hang" then
+        -- liveness, not a clause of the property: reported as a correspondence failure only
+        x ← lifeMismatch x s!"run {x.runs}: resumePayment blocks although no attempt result can arrive any more"
+      else x := { x with outErr := x.outErr + 1 }
+    | _ => pure ()
+    return x
+  | _ =>
+    -- a database call (inside a run: issued by the lifecycle; outside: by the harness)
+    let st ← step x.st line
+    let mut x := { x with st := st }
+    if x.inRun then x := { x with runLines := line :: x.runLines }
+    else if ws.head? == some "init" && (answer ws).head? == some "ok" && x.caseRuns > 0 then
+      x := { x with resends := x.resends + 1 }
+    return x
+
 end LndModel.C16.Driver
+
+open LndModel.C16.Driver in
+def mainLife : IO Unit := do
+  let x ← LndModel.Lines.foldStdin stepLife {}
+  let s := x.st
+  IO.println s!"STAT lines={s.lines}"
+  IO.println s!"STAT cases={s.cases}"
+  IO.println s!"STAT evaluations={s.ops + x.oracleLines}"
+  IO.println s!"STAT nontrivial={s.regOk + s.settles + s.failAtts + s.fails + s.reinitOk + s.reinitRefused + s.regExceed + s.dels + x.crashes + x.results}"
+  IO.println s!"STAT life_runs={x.runs}"
+  IO.println s!"STAT life_resumed_runs={x.resumedRuns}"
+  IO.println s!"STAT life_resends_admitted={x.resends}"
+  IO.println s!"STAT life_resends_refused={s.reinitRefused}"
+  IO.println s!"STAT life_db_calls={s.ops}"
+  IO.println s!"STAT life_oracle_consultations={x.oracleLines}"
+  IO.println s!"STAT life_injected_db_failures={x.crashes}"
+  IO.println s!"STAT life_ctx_cancellations={x.ctxCancels}"
+  IO.println s!"STAT life_switch_results={x.results}"
+  IO.println s!"STAT life_runs_started_with_pending_result={x.waitedOnPending}"
+  IO.println s!"STAT life_htlcs_launched={x.launched}"
+  IO.println s!"STAT life_out_preimage={x.outPreimage}"
+  IO.println s!"STAT life_out_reason={x.outReason}"
+  IO.println s!"STAT life_out_crash={x.outCrash}"
+  IO.println s!"STAT life_out_other_error={x.outErr}"
+  IO.println s!"STAT reg_ok={s.regOk}"
+  IO.println s!"STAT reg_exceeds_amt={s.regExceed}"
+  IO.println s!"STAT settles={s.settles}"
+  IO.println s!"STAT fail_attempts={s.failAtts}"
+  IO.println s!"STAT payment_fails={s.fails}"
+  IO.println s!"STAT statuses_seen={s.stSeen.length}"
+  IO.println s!"STAT mismatches={s.mismatches + x.lifeFails}"
+  IO.println s!"STAT monitor_failures={s.monitorFails}"
 
 open LndModel.C16.Driver in
 def mainX : IO Unit := do
@@ -889,6 +1158,9 @@ def main (args : List String) : IO Unit := do
   let name := args.getLast?.getD "kv"
   if name.startsWith "x" then
     mainX
+    return
+  if name.startsWith "life" then
+    mainLife
     return
   let backend := if name.startsWith "sql" then LndModel.C16.Backend.sql else LndModel.C16.Backend.kv
   let s ← LndModel.Lines.foldStdin step { backend := backend }
